@@ -379,7 +379,7 @@ def full_tag(case, outbuf):
         if isinstance(b.atoms, tuple) and b.atoms[0] == 'T': t |= 1 << (20 + b.atoms[1])
         if isinstance(b.atoms, tuple) and b.atoms[0] == 'TR':
             for r in range(b.n // b.atoms[1]): t |= 1 << (20 + b.atoms[2] + r)
-    if getattr(case, 'tags_expect_wrong', False): t |= 1 << 29
+    if getattr(case, 'tags_expect_wrong', False): t |= 1 << 30
     return '((%s)%dULL)' % (outbuf.ty.carrier, t)
 
 def contract_text(case, fname='w', mutable_globals=()):
@@ -419,10 +419,10 @@ def contract_text(case, fname='w', mutable_globals=()):
             if b.atoms:
                 for k in range(b.n):
                     L.append('__CPROVER_requires(((%s*)%s)[%d] == %s)' % (b.ty.carrier, pn[b.name], k, atom_value(case, b, k)))
-    else:
-        for b in case.bufs:
-            for k in sorted(case.zero_in.get(b.name, ())):
-                L.append('__CPROVER_requires(((%s*)%s)[%d] == 0)' % (b.ty.carrier, pn[b.name], k))
+    for b in case.bufs:
+        if case.mode in ATOMS_LIKE and b.atoms: continue      # zero elements of atom buffers are part of the atom assignment above
+        for k in sorted(case.zero_in.get(b.name, ())):
+            L.append('__CPROVER_requires(((%s*)%s)[%d] == 0)' % (b.ty.carrier, pn[b.name], k))
     for r in case.requires:
         L.append('__CPROVER_requires(%s)' % r.c(ctx))
     asg = ['__CPROVER_object_whole(%s)' % pn[b.name] for b in case.bufs if b.role != 'in']
@@ -463,6 +463,7 @@ def dfcc_main(case, fname='w'):
             decl.append('%s %s[%d];' % (c, b.name, b.n))
             for k in range(b.n):
                 if case.mode in ATOMS_LIKE and b.atoms: decl.append('%s[%d] = %s;' % (b.name, k, atom_value(case, b, k)))
+                elif k in case.zero_in.get(b.name, ()): decl.append('%s[%d] = 0;' % (b.name, k))
                 elif case.b01 and b.role != 'out' and b.ty.kind == 'int': decl.append('%s[%d] = (%s)(nondet_u8() & 1);' % (b.name, k, c))
                 else: decl.append('%s[%d] = nondet_%s();' % (b.name, k, c))
             decl.append('ptr_t p%d = (ptr_t)%s;' % (i, b.name)); ps.append('p%d' % i); i += 1
@@ -1023,7 +1024,9 @@ def make_controls(cases, seed):
     out = []
     per_mode = {}
     rng = random.Random(seed + 77)
-    pool = [c for c in cases if c.ensures and not getattr(c, 'safety_only', False)]
+    findings = load_known_findings()
+    pool = [c for c in cases if c.ensures and not getattr(c, 'safety_only', False)
+            and not any(f['prop'] == c.prop and f['case'].fullmatch(c.cid) for f in findings)]   # a recorded defect may satisfy a falsified clause
     rng.shuffle(pool)
     for c in pool:
         if per_mode.get(c.mode, 0) >= 2: continue
